@@ -16,6 +16,7 @@ H = "vf.harness.C20:"
 KF_ENOL = "C20-enol-roles-by-index-distance"
 
 ENCODES = [
+    "synrbl.SynChemImputer.molecule_standardizer:MoleculeStandardizer.__call__",
     "synrbl.SynChemImputer.molecule_standardizer:MoleculeStandardizer.standardize_enol",
     "synrbl.SynChemImputer.molecule_standardizer:MoleculeStandardizer.standardize_hemiketal",
 ]
@@ -26,8 +27,8 @@ EXPLANATION = (
     "exactly {remove C=C, remove C-O, add C-C single, add C=O} on the atoms that truly play these roles (the harness "
     "knows which carbon carries the oxygen), and the error string must never be returned for a genuine group."
 )
-BOUNDS = ["n <= 8 atoms, three distinct symbolic indices, all 6 orders of the index list; one group per call"]
-STUBS = ["Chem.MolFromSmiles -> fake molecule with symbolic numbering; Chem.EditableMol -> edit recorder; SanitizeMol -> no-op; MolToSmiles -> marker string"]
+BOUNDS = ["n <= 8 atoms, three distinct symbolic indices, all 6 orders of the index list; one group per call; dispatch: one functional group out of {enol, hemiketal, phenol, ketone, enol_ether, acetal} reported by the query, the same molecule standardised twice on one instance"]
+STUBS = ["FGQuery.get -> one solver-chosen group with solver-chosen atom indices, a fresh list per call; CanonSmiles -> identity on SMILES, raises on an error text", "Chem.MolFromSmiles -> fake molecule with symbolic numbering; Chem.EditableMol -> edit recorder; SanitizeMol -> no-op; MolToSmiles -> marker string"]
 OUTSIDE = ["composition and charge conservation, parsability of the result, idempotence, charged species, several groups on one carbon, hemiketals with an ether oxygen (RDKit bond editing / sanitisation)"]
 ASSUMPTIONS = STUBS
 
@@ -102,6 +103,12 @@ class _Chem:
     def MolToSmiles(m):
         return "FIXED"
 
+    @staticmethod
+    def CanonSmiles(s):
+        if s not in ("S0", "FIXED"):
+            raise ValueError("RDKit was unable to parse SMILES %r" % (s,))
+        return s
+
 
 if not hasattr(_ms, "Chem"):
     raise RuntimeError("patch point missing: molecule_standardizer.Chem")
@@ -172,11 +179,68 @@ def h_hemiketal(n: int, c: int, oa: int, ob: int, perm: int) -> bool:
     return False
 
 
+GROUPS = ["enol", "hemiketal", "phenol", "ketone", "enol_ether", "acetal"]
+
+
+class _Query:
+    """FGQuery stand-in: one functional group on the original molecule, none on the rewritten one; a fresh list per
+    call (the library's contract)."""
+
+    def __init__(self, name, idx):
+        self.name, self.idx = name, idx
+
+    def get(self, smiles):
+        if smiles == "S0":
+            return [(self.name, list(self.idx))]
+        return []
+
+
+def h_call(g: int, n: int, a: int, b: int, c: int, perm: int) -> bool:
+    """
+    pre: 0 <= g < 6 and 4 <= n <= 8 and 0 <= perm < 6
+    pre: 0 <= a < n and 0 <= b < n and 0 <= c < n and a != b and a != c and b != c
+    post: _
+    """
+    _ms.Chem = _Chem
+    g = PART.get("g", g)
+    name = GROUPS[g]
+    if name == "hemiketal":
+        mol = _Mol(n, {b: "O", c: "O"})
+    else:
+        mol = _Mol(n, {c: "O"})
+        # keep the enol outside the known index-distance region: the oxygen-bearing carbon b is adjacent to o
+        if name == "enol" and not (abs(b - c) == 1 and abs(a - c) != 1):
+            return True
+    _CUR["mol"] = mol
+    roles = [a, b, c]
+    idx = [roles[i] for i in PERMS[perm]]
+    st = MoleculeStandardizer.__new__(MoleculeStandardizer)
+    st.query = _Query(name, idx)
+    outs = []
+    for _ in range(2):  # the Balancer keeps one instance: the same molecule may come twice
+        _CUR["emol"] = None
+        outs.append((st("S0"), _CUR["emol"].edits if _CUR["emol"] else []))
+    if PART.get("twin"):
+        return outs[0][0] == "S0"
+    want = "FIXED" if name in ("enol", "hemiketal") else "S0"
+    for out, edits in outs:
+        if out != want:
+            return False
+        if want == "S0" and edits:
+            return False
+        if want == "FIXED" and not edits:
+            return False
+    return outs[0][1] == outs[1][1]
+
+
 def plan(tier):
     P = []
     for perm in range(6):
         P.append(Part(H + "h_enol", {"perm": perm}, "enol[order %d]" % perm, group="enol", timeout=900))
         P.append(Part(H + "h_hemiketal", {"perm": perm}, "hemiketal[order %d]" % perm, group="hemiketal", timeout=900))
+    for g in range(len(GROUPS)):
+        P.append(Part(H + "h_call", {"g": g}, "call[%s]" % GROUPS[g], group="dispatch", timeout=900))
+    P.append(Part(H + "h_call", {"twin": 1}, "call.twin", kind="twin", group="dispatch", timeout=300))
     P.append(Part(H + "h_enol", {"twin": "outside"}, "enol.twin[outside region reachable]", kind="twin", group="enol", timeout=300))
     P.append(Part(H + "h_enol", {"twin": "inside"}, "enol.twin[inside region reachable]", kind="twin", group="enol", timeout=300))
     P.append(Part(H + "h_hemiketal", {"twin": 1}, "hemiketal.twin", kind="twin", group="hemiketal", timeout=300))
